@@ -18,7 +18,10 @@ def main():
                         "data, garbage payload, connect-and-leave, failed authentication, half a header; stalled clients are kept "
                         "below the pool size",
                         "real sockets and threads; conditions awaited with deadlines"]
-    return chk.finish(rule="evaluations = steps of TLC paths executed against real servers; distinct = (flavour, transport, path)")
+    chk.assumptions += ["schedules at statement granularity are forced with sys.monitoring breakpoints on the real server threads; one thread "
+                        "is held inside a window while one other operation runs to completion"]
+    return chk.finish(rule="evaluations = steps of TLC paths executed against real servers + window scenarios; distinct = (flavour, "
+                      "transport, path) and (statement, phase, intruder)")
 
 
 def extra_isolation(chk):
